@@ -184,48 +184,15 @@ def PosOK (L x : Int) : Prop := x ≠ -1 → L + 1 - x ≠ -1
 
 instance (L x : Int) : Decidable (PosOK L x) := by unfold PosOK; infer_instance
 
-/-- when one of the two positions is absent, its sentinel value −1 is not nearer to `x` than the present one, before
-    and after the reflection (`detect_reference_exons_beyond_polya / before_polyt` take `abs(x - pos)` of BOTH
-    positions, also of an absent one) -/
-def SentinelInert (L x ext int : Int) : Prop :=
-  (ext = -1 → iabs (x - int) ≤ iabs (x + 1) ∧ iabs (x - int) ≤ iabs (L + 2 - x)) ∧
-  (int = -1 → iabs (x - ext) ≤ iabs (x + 1) ∧ iabs (x - ext) ≤ iabs (L + 2 - x))
-
-instance (L x ext int : Int) : Decidable (SentinelInert L x ext int) := by unfold SentinelInert; infer_instance
-
-/-- `SentinelInert` at the exon `detect_reference_exons_beyond_polya` measures the distances from (the last isoform exon
-    that does not lie beyond the polyA site); vacuous when the function returns before the distance test -/
-def SentinelInertBeyond (L : Int) (iso : List Iv) (ext int : Int) : Prop :=
-  let c := countBeyond (if int ≠ -1 then int else ext) iso.reverse
-  match pyGet? iso (-(c : Int) - 1) with
-  | some b => c = iso.length ∨ c = 0 ∨ SentinelInert L b.2 ext int
-  | none => True
-
-instance (L : Int) (iso : List Iv) (ext int : Int) : Decidable (SentinelInertBeyond L iso ext int) := by
-  unfold SentinelInertBeyond
-  dsimp only
-  cases pyGet? iso (-((countBeyond (if int ≠ -1 then int else ext) iso.reverse : Nat) : Int) - 1) <;> infer_instance
-
-/-- the same for `detect_reference_exons_before_polyt` (the first isoform exon that does not lie before the polyT site) -/
-def SentinelInertBefore (L : Int) (iso : List Iv) (ext int : Int) : Prop :=
-  let c := countBefore (if int ≠ -1 then int else ext) iso
-  match iso[c]? with
-  | some b => c = 0 ∨ c = iso.length ∨ SentinelInert L b.1 ext int
-  | none => True
-
-instance (L : Int) (iso : List Iv) (ext int : Int) : Decidable (SentinelInertBefore L iso ext int) := by
-  unfold SentinelInertBefore
-  dsimp only
-  cases iso[countBefore (if int ≠ -1 then int else ext) iso]? <;> infer_instance
-
-/-- hypotheses of `verify_polya ↔ verify_polyt`: a position is present; no present position, no isoform end and no
-    position corrected by `shift_polya` is (or is mirrored onto) the sentinel −1; the sentinel is inert in the distance
-    test.  `fake` = number of `fake_terminal_exon_right` events. -/
+/-- hypotheses of `verify_polya ↔ verify_polyt`: a position is present (the code asserts it); no present position, no
+    isoform end and no position corrected by `shift_polya` is (or is mirrored onto) the sentinel −1.
+    `fake` = number of `fake_terminal_exon_right` events.  (Before fix a2ae069 a further hypothesis was needed: the code
+    took `abs(x − pos)` of an ABSENT position too; see `detectBeyondPolyaBuggy_mirror_witness`.) -/
 def PolyaMirrorOK (L : Int) (iso read : List Iv) (ext int : Int) (fake : Nat) : Prop :=
   (ext ≠ -1 ∨ int ≠ -1) ∧ PosOK L ext ∧ PosOK L int ∧
   (match iso.getLast? with | some e => NoSent L e.2 | none => True) ∧
   (match shiftPolya read fake ext, shiftPolya read fake int with
-   | some e1, some i1 => (ext ≠ -1 → NoSent L e1) ∧ (int ≠ -1 → NoSent L i1) ∧ SentinelInertBeyond L iso e1 i1
+   | some e1, some i1 => (ext ≠ -1 → NoSent L e1) ∧ (int ≠ -1 → NoSent L i1)
    | _, _ => True)
 
 instance (L : Int) (iso read : List Iv) (ext int : Int) (fake : Nat) : Decidable (PolyaMirrorOK L iso read ext int fake) := by
@@ -237,7 +204,7 @@ def PolytMirrorOK (L : Int) (iso read : List Iv) (ext int : Int) (fake : Nat) : 
   (ext ≠ -1 ∨ int ≠ -1) ∧ PosOK L ext ∧ PosOK L int ∧
   (match iso.head? with | some e => NoSent L e.1 | none => True) ∧
   (match shiftPolyt read fake ext, shiftPolyt read fake int with
-   | some e1, some i1 => (ext ≠ -1 → NoSent L e1) ∧ (int ≠ -1 → NoSent L i1) ∧ SentinelInertBefore L iso e1 i1
+   | some e1, some i1 => (ext ≠ -1 → NoSent L e1) ∧ (int ≠ -1 → NoSent L i1)
    | _, _ => True)
 
 instance (L : Int) (iso read : List Iv) (ext int : Int) (fake : Nat) : Decidable (PolytMirrorOK L iso read ext int fake) := by
@@ -296,7 +263,7 @@ def paIso : List Iv := [(100, 200), (300, 400)]
 def paRead : List Iv := [(100, 200), (300, 380)]
 def paInfo : PolyA := { extA := 381, extT := -1, intA := -1, intT := -1 }
 
-/-- sentinel witness: a gene at the chromosome start whose short last exon lies beyond the polyA site -/
+/-- regression witness of fix a2ae069: a gene at the chromosome start whose short last exon lies beyond the polyA site -/
 def sentIso : List Iv := [(5, 30), (180, 190)]
 def sentRead : List Iv := [(5, 30)]
 def sentInfo : PolyA := { extA := 135, extT := -1, intA := -1, intT := -1 }
